@@ -22,9 +22,9 @@ class Group:
     pass
 
 
-def build(ex, shape, sym_soc=True, wide_battery=False):
+def build(ex, shape, sym_soc=True, wide_battery=False, soc_pattern=None):
     """shape: tuple of (n_batteries, n_inverters) per group.  Returns (pairs, groups) with symbolic data and the
-    documented consistency assumptions.  wide_battery: the batteries' own capacity, SoC limits and power bounds are concrete
+    documented consistency assumptions.  soc_pattern: concrete SoC per group (see below).  wide_battery: the batteries' own capacity, SoC limits and power bounds are concrete
     and non-binding (capacity 1, limits 0..100, bounds +-1e9, no exclusion zone); only their SoC and the inverter data stay symbolic."""
     A = ex.assume
     pairs, groups = [], []
@@ -36,6 +36,10 @@ def build(ex, shape, sym_soc=True, wide_battery=False):
             v = {k: ex.real(f"g{g}b{b}_{k}") for k in ("cap", "soc", "slo", "shi", "il", "el", "eu", "iu")}
             if wide_battery:
                 v.update(cap=1.0, slo=0.0, shi=100.0, il=-1e9, el=0.0, eu=0.0, iu=1e9)
+            if soc_pattern is not None:
+                # concrete SoC data (capacity 1, limits 0..100, SoC from the pattern): the availability ratios become concrete, so
+                # every share is linear in the symbolic request and bounds (QF_LRA instead of QF_NRA)
+                v.update(cap=1.0, slo=0.0, shi=100.0, soc=float(soc_pattern[g][b] if isinstance(soc_pattern[g], (tuple, list)) else soc_pattern[g]))
             A(E(v["cap"]) > 0)
             A(z3.And(E(v["slo"]) >= 0, E(v["slo"]) <= E(v["shi"]), E(v["shi"]) <= 100))
             A(z3.And(E(v["soc"]) >= 0, E(v["soc"]) <= 100))
